@@ -436,7 +436,21 @@ func runC16(c *fw.Ctx, idx int) fw.Result {
 			data = append(append(append([]byte{}, data[:p]...), '\r'), data[p:]...)
 		case "huge-line":
 			big := strings.Repeat("A", 2<<20)
-			data = []byte(">big\n" + big + "\n>second\n" + big + "\n")
+			if r.Chance(0.4) || len(recs) < 2 {
+				data = []byte(">big\n" + big + "\n>second\n" + big + "\n")
+			} else {
+				// the over-long row sits in a later record (middle or last) of an ordinary
+				// alignment: whatever the reader's line limit, the row has another length than
+				// the records before it, so every reader must refuse the file
+				rc2 := append([]gen.FastaRec{}, recs...)
+				k := at
+				if k == 0 {
+					k = len(recs) - 1
+				}
+				rc2[k].Seq = big
+				data = []byte(gen.RenderFasta(rc2, 0))
+				mustErr = []bool{true, true, true, true}
+			}
 		case "empty-first-record", "empty-middle-record":
 			// a header with an ID but no sequence: its length (0) differs from the other records'
 			if len(recs) >= 2 {
